@@ -239,6 +239,65 @@ class Opaque:
         return "<opaque %s>" % self.desc
 
 
+class FmtStr(Opaque):
+    """A formatted string of KNOWN structure with symbolic integer fields: parts are ("lit", str) or
+    ("int", z3 Int term, minimum width, fill character).  Everywhere else it behaves as an uninterpreted string
+    (Opaque); int() of it is modelled exactly (attrs.to_int)."""
+
+    def __init__(self, parts):
+        Opaque.__init__(self, "formatted string")
+        self.parts = parts
+
+
+def fmt_int_field(value, spec):
+    """One replacement field of str.format / an f-string applied to an int.  -> part, or None if the spec is not one
+    of the modelled ones: '', 'd', 'Nd', '0Nd', '>Nd', '>0Nd' (all right-aligned, fill ' ' or '0')."""
+    import re as _re
+
+    m = _re.fullmatch(r"(>)?(0)?([1-9][0-9]*)?(d)?", spec or "")
+    if m is None:
+        return None
+    width = int(m.group(3)) if m.group(3) else 0
+    fill = "0" if m.group(2) else " "
+    if isinstance(value, bool):
+        return None
+    if isinstance(value, int):
+        return ("lit", format(value, spec or ""))
+    return ("int", value, width, fill)
+
+
+def build_fmtstr(parts):
+    """merge adjacent literals; a string without symbolic field is returned as a plain str"""
+    out = []
+    for p in parts:
+        if p[0] == "lit" and out and out[-1][0] == "lit":
+            out[-1] = ("lit", out[-1][1] + p[1])
+        elif p[0] == "lit" and p[1] == "":
+            continue
+        else:
+            out.append(p)
+    if all(p[0] == "lit" for p in out):
+        return "".join(p[1] for p in out)
+    return FmtStr(out)
+
+
+class Inf:
+    """float("inf") / float("-inf").  Only comparisons are modelled: every modelled real (A1: concrete rationals and
+    symbolic reals are finite) is strictly between -inf and +inf.  Arithmetic on it is Unsupported."""
+
+    def __init__(self, sign=1):
+        self.sign = 1 if sign > 0 else -1
+
+    def __repr__(self):
+        return "inf" if self.sign > 0 else "-inf"
+
+    def __eq__(self, o):
+        return isinstance(o, Inf) and o.sign == self.sign
+
+    def __hash__(self):
+        return hash(("Inf", self.sign))
+
+
 class SliceVal:
     def __init__(self, lo, hi, step):
         self.lo, self.hi, self.step = lo, hi, step
